@@ -141,6 +141,15 @@ QSearch ==
                                   !.matches = q.matches \o Scan(q.view, q.f, hr0)]
   /\ UNCHANGED <<chain, idx, valid, outcome>>
 
+(* The matcher reads the index without excluding the indexer: when the indexed range has moved     *)
+(* since the session's last sync (tail unindexed, head reverted) an indexed search may fail with    *)
+(* an internal error instead of returning; the caller retries.                                       *)
+QSearchFails ==
+  /\ q.phase = "iterate" /\ ~SameRng(q.sr, q.mr) /\ ~q.force
+  /\ ~Empty(Inter(q.sr, q.sync.rng)) /\ idx # q.sync
+  /\ Finish("error", q)
+  /\ UNCHANGED <<chain, idx, valid>>
+
 (* doSearchIteration, second half of an indexed search: SyncLogIndex, keep only what stayed valid *)
 QSync ==
   /\ q.phase = "searched"
